@@ -544,8 +544,8 @@ theorem gsvd_embedding {out : GsvdOut α} (h : gsvdFit F nRow nCol a nnz p solve
     gsvdPost_order F nRow nCol p _ _ _ _ _ _ _, gsvdPost_sv_length F nRow nCol p _ _ _ _ _ _ _⟩
 
 /-- **`gsvd_predict_row`** (fit level).  After a successful fit whose solver output satisfies the contract,
-    whenever `predict` succeeds on a batch `x` of `nVec` vectors whose row `r` is row `i` of the fitted matrix, row `r` of
-    the answer is the embedding of that row: `predict(A[i]) = embedding_row_[i]`, with or without regularisation and
+    `predict` accepts every batch `x` of `nVec` vectors without negative entry (an empty row — an isolated node — included),
+    and if row `r` of the batch is row `i` of the fitted matrix, row `r` of the answer is the embedding of that row: `predict(A[i]) = embedding_row_[i]`, with or without regularisation and
     normalisation.
     `pow` has to split the returned singular values (`σ^{1−α} σ^{α} = σ`, `σ^{α} ≠ 0`, i.e. `σ > 0`). -/
 theorem gsvd_predict_row {out : GsvdOut α} (h : gsvdFit F nRow nCol a nnz p solver = .ok out)
@@ -555,20 +555,19 @@ theorem gsvd_predict_row {out : GsvdOut α} (h : gsvdFit F nRow nCol a nnz p sol
       let s := vget (gsSol F nRow nCol a p solver).1 c
       F.pow s (1 - p.factorSingular) * F.pow s p.factorSingular = s ∧ F.pow s p.factorSingular ≠ 0)
     (i : Nat) (hi : i < nRow) (nVec r : Nat) (hr : r < nVec) (x : Mat α)
-    (hx : ∀ j, j < nCol → mget x r j = mget a i j) (xnnz : Nat)
-    {e : Mat α}
-    (hp : gsvdPredict F p nCol out.singularValues out.right out.weightsCol nVec nCol x xnnz = .ok e)
+    (hx : ∀ j, j < nCol → mget x r j = mget a i j)
+    (hnn : ∀ i j, i < nVec → j < nCol → 0 ≤ mget x i j)
     (c : Nat) (hc : c < out.singularValues.length) :
-    mget e r c = mget out.embeddingRow i c := by
+    ∃ e, gsvdPredict F p nCol out.singularValues out.right out.weightsCol nVec nCol x = .ok e ∧
+      mget e r c = mget out.embeddingRow i c := by
   obtain ⟨_, hcol, hout⟩ := gsvdFit_ok F nRow nCol a nnz p solver h
-  have he : e = gsvdPredictCore F p nCol out.singularValues out.right out.weightsCol nVec x := by
-    unfold gsvdPredict at hp
-    split at hp
-    · cases hp
-    · exact (Except.ok.inj hp).symm
+  refine ⟨gsvdPredictCore F p nCol out.singularValues out.right out.weightsCol nVec x, ?_, ?_⟩
+  · unfold gsvdPredict
+    rw [predictRefused_eq_false nCol nVec x hnn]
+    rfl
   have hlen : out.singularValues.length = (gsSol F nRow nCol a p solver).1.length := by
     rw [hout]; exact gsvdPost_sv_length F nRow nCol p _ _ _ _ _ _ _
-  rw [he, hout]
+  rw [hout]
   exact Embedding.gsvd_predict_row F nRow nCol a p _ _ _ _ (by omega) hsol i hi nVec r hr x hx hpow c
     (by rw [← hlen]; exact hc)
 
@@ -643,7 +642,7 @@ example :
     IsSingularTriplets (gsOp Fq 2 2 d21 pSvd) (gsSol Fq 2 2 d21 pSvd solD21).1 (gsSol Fq 2 2 d21 pSvd solD21).2.1
       (gsSol Fq 2 2 d21 pSvd solD21).2.2 ∧
     (Fq.pow 2 (1 - 0) * Fq.pow 2 0 = 2 ∧ Fq.pow 2 0 ≠ 0) ∧
-    (gsvdPredict Fq pSvd 2 [2] [[1], [0]] (gsvdOperator Fq 2 2 d21 pSvd).2.1 1 2 [[2, 0]] 1).toOption = some [[1]] := by
+    (gsvdPredict Fq pSvd 2 [2] [[1], [0]] (gsvdOperator Fq 2 2 d21 pSvd).2.1 1 2 [[2, 0]]).toOption = some [[1]] := by
   decide +kernel
 
 /-! ### PCA -/
@@ -691,20 +690,20 @@ theorem pca_predict_row {out : PcaOut α} (h : pcaFit F nRow nCol a nnz nc nm so
       (pcaSol nRow nCol a nc solver).2.1 (pcaSol nRow nCol a nc solver).2.2)
     (hsv : ∀ c, c < (pcaSol nRow nCol a nc solver).1.length → vget (pcaSol nRow nCol a nc solver).1 c ≠ 0)
     (i : Nat) (hi : i < nRow) (nVec r : Nat) (hr : r < nVec) (x : Mat α)
-    (hx : ∀ j, j < nCol → mget x r j = mget a i j) (xnnz : Nat)
-    {e : Mat α} (hp : pcaPredict F nm nCol out.singularValues out.right out.mean nVec nCol x xnnz = .ok e)
+    (hx : ∀ j, j < nCol → mget x r j = mget a i j)
+    (hnn : ∀ i j, i < nVec → j < nCol → 0 ≤ mget x i j)
     (c : Nat) (hc : c < out.singularValues.length) :
-    mget e r c = mget out.embeddingRow i c ∧
+    (∃ e, pcaPredict F nm nCol out.singularValues out.right out.mean nVec nCol x = .ok e ∧
+      mget e r c = mget out.embeddingRow i c) ∧
     out.embeddingRow = (if nm then normalize2 F nRow out.singularValues.length out.left else out.left) := by
   obtain ⟨_, _, hout⟩ := pcaFit_ok F nRow nCol a nnz nc nm solver h
-  have he : e = pcaPredictCore F nm nCol out.singularValues out.right out.mean nVec x := by
-    unfold pcaPredict at hp
-    split at hp
-    · cases hp
-    · exact (Except.ok.inj hp).symm
   constructor
-  · rw [he, hout]
-    exact Embedding.pca_predict_row F nRow nCol a _ _ _ nm hsol i hi nVec r hr x hx hsv c (by rw [hout] at hc; exact hc)
+  · refine ⟨pcaPredictCore F nm nCol out.singularValues out.right out.mean nVec x, ?_, ?_⟩
+    · unfold pcaPredict
+      rw [predictRefused_eq_false nCol nVec x hnn]
+      rfl
+    · rw [hout]
+      exact Embedding.pca_predict_row F nRow nCol a _ _ _ nm hsol i hi nVec r hr x hx hsv c (by rw [hout] at hc; exact hc)
   · rw [hout]; rfl
 
 /-- **C09 / PCA: triplets and unit norm.**  The public triplets are the solver's, hence (under the contract) singular
@@ -755,7 +754,7 @@ example :
     (pcaFit Fq 2 2 eye2 2 1 false solEye2).toOption.map (·.embeddingRow) = some [[1], [-1]] ∧
     IsSingularTriplets (pcaOperator 2 2 eye2) (pcaSol 2 2 eye2 1 solEye2).1 (pcaSol 2 2 eye2 1 solEye2).2.1
       (pcaSol 2 2 eye2 1 solEye2).2.2 ∧
-    (pcaPredict Fq false 2 [1] [[1], [-1]] (pcaMeans 2 2 eye2) 1 2 [[0, 1]] 1).toOption = some [[-1]] := by
+    (pcaPredict Fq false 2 [1] [[1], [-1]] (pcaMeans 2 2 eye2) 1 2 [[0, 1]]).toOption = some [[-1]] := by
   decide +kernel
 
 /-! ### RandomProjection -/
@@ -946,12 +945,13 @@ theorem gsvd_predict_row_real (nRow nCol : Nat) (a : Mat ℝ) (nnz : Nat) (p : G
       (gsSol Freal nRow nCol a p solver).2.1 (gsSol Freal nRow nCol a p solver).2.2)
     (hpos : ∀ c, c < (gsSol Freal nRow nCol a p solver).1.length → 0 < vget (gsSol Freal nRow nCol a p solver).1 c)
     (i : Nat) (hi : i < nRow) (nVec r : Nat) (hr : r < nVec) (x : Mat ℝ)
-    (hx : ∀ j, j < nCol → mget x r j = mget a i j) (xnnz : Nat) {e : Mat ℝ}
-    (hp : gsvdPredict Freal p nCol out.singularValues out.right out.weightsCol nVec nCol x xnnz = .ok e)
+    (hx : ∀ j, j < nCol → mget x r j = mget a i j)
+    (hnn : ∀ i j, i < nVec → j < nCol → 0 ≤ mget x i j)
     (c : Nat) (hc : c < out.singularValues.length) :
-    mget e r c = mget out.embeddingRow i c :=
+    ∃ e, gsvdPredict Freal p nCol out.singularValues out.right out.weightsCol nVec nCol x = .ok e ∧
+      mget e r c = mget out.embeddingRow i c :=
   gsvd_predict_row Freal nRow nCol a nnz p solver h hsol
-    (fun c hc => real_pow_split _ _ (hpos c hc)) i hi nVec r hr x hx xnnz hp c hc
+    (fun c hc => real_pow_split _ _ (hpos c hc)) i hi nVec r hr x hx hnn c hc
 
 end real
 
